@@ -56,6 +56,25 @@ def outputClasses (c : Config) (pkts : List Packet) : List String :=
   (if pkts.any (fun p => match p with
       | .ipfix _ ss => !ss.isEmpty
       | _ => false) then ["ipfix-any-set"] else []) ++
+  -- an IPFIX message whose reported sets do not add up to its header.length (sets after an undecodable one were dropped)
+  (if pkts.any (fun p => match p with
+      | .ipfix h ss => ((ss.map fun s => max s.len 4).sum + 16 != max (c.t.ipHdr.get "length" h) 16)
+      | _ => false) then ["ipfix-dropped-sets"] else []) ++
+  -- common view: a projected field is present but decoded with a kind the converter does not accept
+  (let rejected (k : CommonKeys) (r : Rec) : Bool :=
+     let bad (key : Nat) (ok : FieldValue → Bool) : Bool := match Preds.firstField r key with | some v => !ok v | none => false
+     bad k.sport (fun v => (asU16 v).isSome) || bad k.dport (fun v => (asU16 v).isSome) ||
+     bad k.proto (fun v => (asU8 v).isSome) || bad k.first (fun v => (asU32 v).isSome) || bad k.last (fun v => (asU32 v).isSome) ||
+     bad k.smac (fun v => (asString v).isSome) || bad k.dmac (fun v => (asString v).isSome) ||
+     bad k.src4 (fun v => (asIp v).isSome) || bad k.src6 (fun v => (asIp v).isSome) ||
+     bad k.dst4 (fun v => (asIp v).isSome) || bad k.dst6 (fun v => (asIp v).isSome)
+   if pkts.any (fun p => match p with
+      | .v9 _ ss => (v9DataRecs ss).any (rejected c.t.commonV9)
+      | .ipfix _ ss => (Preds.regroup (ipDataRecs ss) []).any (rejected c.t.commonIp)
+      | _ => false) then ["common-kind-rejected"] else []) ++
+  (if pkts.any (fun p => match p with
+      | .ipfix _ ss => (Preds.regroup (ipDataRecs ss) []).any (fun r => r.length ≥ 2)
+      | _ => false) then ["ipfix-per-field-flows"] else []) ++
   (if pkts.any (fun p => match p with
       | .ipfix _ ss => ss.any fun s => match s.body with | .data .. => true | .optData .. => true | _ => false
       | .v9 _ ss => ss.any fun s => match s.body with | .data .. => true | _ => false
@@ -93,12 +112,12 @@ def inputClasses (c : Config) (d : Spec.Defs) (msgs : List Spec.Msg) : List Stri
    if v9Sets.any (fun s => match s with
       | .data id recs _ => optIds.contains id && recs.length ≥ 2
       | _ => false) then ["v9-options-multi-record"] else []) ++
-  (if v9Sets.any (fun s => match s with
-      | .data id recs _ =>
-        (match amLookup id d.v9 with
-         | some (.t t) => recs.any fun r => (t.fields.zip r).any fun p =>
-             c.t.v9Ty (c.t.v9Field p.1.typ) == .proto && p.2.length == 1 && 146 ≤ beNat p.2 && beNat p.2 ≤ 254
-         | _ => false)
+  (let hasProto (fs : List TField) : Bool := fs.any fun f => c.t.v9Ty (c.t.v9Field f.typ) == .proto
+   let protoTemplates :=
+     (v9Sets.any fun s => match s with | .templates ts _ => ts.any (fun t => hasProto t.fields) | _ => false) ||
+     (d.v9.any fun e => match e.2 with | .t t => hasProto t.fields | _ => false)
+   if protoTemplates && v9Sets.any (fun s => match s with
+      | .data _ recs _ => recs.any fun r => r.any fun b => b.length == 1 && 146 ≤ beNat b && beNat b ≤ 254
       | _ => false) then ["v9-proto-146-254"] else [])
 
 end Netflow.Findings
